@@ -59,7 +59,8 @@ class _Meth:
         return self.c
 
 
-@unit("C10", covers=[(DEX, "determineNext")], params=[{"payload": p} for p in ("packed", "sparse", "none", "other")], samples=100)
+@unit("C10", covers=[(DEX, "determineNext"), (DEX, "PackedSwitch.__init__"), (DEX, "SparseSwitch.__init__"), (DEX, "PackedSwitch.get_targets"),
+                     (DEX, "SparseSwitch.get_targets")], params=[{"payload": p} for p in ("packed", "sparse", "none", "other", "packed_real", "sparse_real")], samples=100)
 def determine_next(U, payload):
     """successor offsets of one instruction, for every opcode, offset, length and switch payload"""
     m = U.mod(DEX)
@@ -69,7 +70,20 @@ def determine_next(U, payload):
     length = U.choice("len", [2, 4, 6])
     ro = U.int("ref_off", -(1 << 20), 1 << 20)
     t0, t1 = U.int("t0", -(1 << 20), 1 << 20), U.int("t1", -(1 << 20), 1 << 20)
-    if payload in ("packed", "sparse"):
+    if payload in ("packed_real", "sparse_real"):
+        # payload decoded by the real constructor from symbolic bytes: case targets are *signed* 32-bit offsets
+        from pyvc.models import split_le
+        from pyvc.core import SymBytes
+        tb = (split_le(t0, 4) if not isinstance(t0, int) else list((t0 & 0xFFFFFFFF).to_bytes(4, "little"))) + \
+             (split_le(t1, 4) if not isinstance(t1, int) else list((t1 & 0xFFFFFFFF).to_bytes(4, "little")))
+        if payload == "packed_real":
+            raw = [0x00, 0x01, 2, 0, 5, 0, 0, 0] + tb
+        else:
+            raw = [0x00, 0x02, 2, 0, 1, 0, 0, 0, 9, 0, 0, 0] + tb
+        cls = m.PackedSwitch if payload == "packed_real" else m.SparseSwitch
+        pl = cls(U.cm(), SymBytes(raw) if U.mode == "sym" else bytes(raw))
+        payload = "packed"
+    elif payload in ("packed", "sparse"):
         pl = object.__new__(m.PackedSwitch if payload == "packed" else m.SparseSwitch)
         pl.targets = [t0, t1]
     elif payload == "other":
